@@ -31,3 +31,27 @@ func VerifReadAll(input []byte) (VerifReadResult, error) {
 		SkipAll: r.skipAll, SkipNext: r.skipNext, AutoReset: r.autoReset, InBegin: r.inBegin,
 	}, err
 }
+
+// VerifReadChunked reads the file through ContentReader.Read with a destination buffer of exactly size bytes per call
+// (io.ReadAll above uses a growing buffer that starts at 512 bytes): the bytes handed out must not depend on the chunking.
+func VerifReadChunked(input []byte, size int) (VerifReadResult, error) {
+	r := newContentReader(bytes.NewReader(input))
+	var out []byte
+	var err error
+	for i := 0; i < 10*len(input)+100; i++ {
+		buf := make([]byte, size)
+		var n int
+		n, err = r.Read(buf)
+		out = append(out, buf[:n]...)
+		if err != nil {
+			break
+		}
+	}
+	if err == io.EOF {
+		err = nil
+	}
+	return VerifReadResult{
+		Out: out, Lines: r.lines, Comments: r.comments, Diags: r.diagnostics, Lineno: r.lineno,
+		SkipAll: r.skipAll, SkipNext: r.skipNext, AutoReset: r.autoReset, InBegin: r.inBegin,
+	}, err
+}
